@@ -75,7 +75,11 @@ def build():
 """, rewrites=[("T-STR", r"ka\.as_bytes\(\)", "crate::vproof::str_as_bytes(&ka)", 2),
                ("T-B64", r"b64_encode\(&a\)", "crate::vproof::b64_encode_bytes(&a)"),
                ("T-B64", r"b64_encode\(&proof\)", "crate::vproof::b64_encode_bytes(&proof)"),
-               ("T-ITER", r"proof\s*\.iter\(\)\s*\.map\(\|e\| format!\(\"\{e:02x\}\"\)\)\s*\.collect::<Vec<String>>\(\)\s*\.join\(\":\"\)", "crate::vproof::hex_colon_join(&proof)"),
+               # bytes rendered one by one and joined: `{e:02x}` with ":" is the two-digit lower-case hex form; any other format or separator is
+               # kept as an uninterpreted rendering (so that the postcondition decides)
+               ("T-ITER", r"proof\s*\.iter\(\)\s*\.map\(\|(?P<v>\w+)\| format!\(\"(?P<f>[^\"]*)\"\)\)\s*\.collect::<Vec<String>>\(\)\s*\.join\(\"(?P<sep>[^\"]*)\"\)",
+                lambda m: "crate::vproof::hex_colon_join(&proof)" if (m.group("f") == "{" + m.group("v") + ":02x}" and m.group("sep") == ":")
+                else f'crate::vproof::fmt_join(&proof, "{m.group("f")}", "{m.group("sep")}")'),
                ("T-FMT", r"format!\(\"\{ACME_OID\}\.\{ID_PE_ACME_ID\}\"\)", lambda m: fmtx('"{ACME_OID}.{ID_PE_ACME_ID}"', kinds={"ID_PE_ACME_ID": "dec"})),
                ("T-FMT", r"format!\(\s*\"critical,\{DER_STRUCT_NAME\}:\{DER_OCTET_STRING_ID:02x\}:\{:02x\}:\{proof_str\}\",\s*proof\.len\(\),\s*\)",
                 lambda m: fmtx('"critical,{DER_STRUCT_NAME}:{DER_OCTET_STRING_ID:02x}:{:02x}:{proof_str}"', ["proof.len()"])),
@@ -87,7 +91,7 @@ def build():
                     reveal_strlit("1.3.6.1.5.5.7.1"); reveal_strlit("."); reveal_strlit("31"); reveal_strlit("="); reveal_strlit("critical,");
                     reveal_strlit("DER"); reveal_strlit(":"); reveal_strlit("04"); reveal_strlit("20");
                     reveal_strlit("1.3.6.1.5.5.7.1.31=critical,DER:04:20:");
-                    assert(acme_ext@ =~= "1.3.6.1.5.5.7.1.31=critical,DER:04:20:"@ + hex_colon(proof@));
+                    assert(acme_ext@ =~= "1.3.6.1.5.5.7.1.31=critical,DER:04:20:"@ + hex_colon(proof@)); //@C05.tlsalpn01_proof_is_rfc8737_extension_text
                 }""")])})
     u.verify(A, "Challenge::get_file_name", "acme_proto::structs", props=["C05"], fns={"get_file_name": FnSpec(ret="r", sig="""
     ensures self matches Challenge::Http01(tc) ==> r@ == tc.token@, //@C05.http01_file_name_is_token
